@@ -149,3 +149,6 @@ def run(chk, replay):
         if v:
             chk.violation(sigs, v, {"sc": sc, "cfgseed": cfgseed, "how": how, "field": field, "axes": axes,
                                     "scale": scale, "sigs": sigs, "ext": ext, "ext_cut": ext_cut})
+    # the command line layer (spec/Cli.tla): every subset of the tool's options typed to the real main(), API intercepted
+    from harness import cli
+    cli.phase(chk, "pestle")
